@@ -102,15 +102,8 @@ def first_errors(txt, n=8):
 
 
 def load_findings(prop):
-    """known_findings.txt + notes/proposed_findings/<prop>.txt (proposed, not yet merged)"""
-    out = list(core.load_known_findings().get(prop, []))
-    try:
-        for l in open(os.path.join(VERIF, 'notes', 'proposed_findings', prop + '.txt')):
-            m = re.match(r'finding:\s+property=(C\d+)\s+key=\[([^\]]*)\]\s*(.*)', l.strip())
-            if m and m.group(1) == prop and (m.group(2), m.group(3)) not in out: out.append((m.group(2), m.group(3)))
-    except OSError:
-        pass
-    return out
+    """the ONLY file that can suppress a violation is /verif/known_findings.txt"""
+    return list(core.load_known_findings().get(prop, []))
 
 
 def audit(ctx, module, props_file, namespace, gen_files, ok_build, problems):
